@@ -445,7 +445,7 @@ def model_driver():
     """the shared OCaml driver; if the shared extraction does not build (another component's kernel is
     broken), a private driver with only the C18 functions, built under out/C18/ocaml"""
     try:
-        build_driver()
+        build_driver(['c18'])
         return os.path.join(OCAML, 'driver'), 'shared'
     except BuildError as e:
         log('shared driver does not build (%s); building a private C18 driver' % e.what)
